@@ -79,6 +79,11 @@ class HandlerTraversal:
     for k in a:
       if k in b:
         out[k] = a[k] | b[k]
+      elif ALL in b:       # the other branch dispatched every field
+        out[k] = a[k] | b[ALL]
+    for k in b:
+      if k not in a and ALL in a:
+        out[k] = b[k] | a[ALL]
     return out
 
   def _gen_expr(self, e, env, acc, fi, depth):
